@@ -1448,13 +1448,17 @@ def _inherited_loader_gaps(prog):
             nm = todo.pop()
             if nm in seen: continue
             seen.add(nm)
-            for c in ci.mro:
-                f = c.methods.get(nm)
-                if f is None: continue
+            fs = [c.methods.get(nm) for c in ci.mro if c.methods.get(nm) is not None]
+            ps = _property_setter(ci, nm)
+            if ps is not None:
+                fs.append(ps)
+            for f in fs:
                 for x in ast.walk(f):
                     if isinstance(x, ast.Assign):
                         for t in x.targets:
-                            if is_self_attr(t): restored.add(t.attr)
+                            if is_self_attr(t):
+                                restored.add(t.attr)
+                                todo.append(t.attr)   # (may be a property with a setter as well)
                     if isinstance(x, ast.Call) and isinstance(x.func, ast.Attribute) and unparse(x.func.value) == 'self':
                         todo.append(x.func.attr)
         init = ci.methods['__init__']
@@ -1464,8 +1468,7 @@ def _inherited_loader_gaps(prog):
                 for t in x.targets:
                     if is_self_attr(t): own.add(t.attr)
         # only if the class that defines from_hdf5 is a proper base (inherited loader)
-        if chain[0][0] is ci:
-            continue
+        own_loader = chain[0][0] is ci
         base_bound = set()
         for c in ci.mro[1:]:
             for f in c.methods.values():
@@ -1497,7 +1500,7 @@ def check_inherited_loader(prog, rep):
     for ci, miss, owner in hits:
         rep.violation('HDF5-inherited-loader', ci.module, ci.name + '.__init__',
                       'not-restored:' + ','.join(miss),
-                      '%s inherits from_hdf5 of %s, which restores attribute by attribute, but its '
+                      '%s is loaded by from_hdf5 of %s, which restores attribute by attribute, but its '
                       'own __init__ binds %s (read by its other methods): a loaded %s lacks them '
                       '(AttributeError on use)' % (ci.name, owner, miss, ci.name),
                       ci.methods['__init__'].lineno)
